@@ -505,6 +505,15 @@ func genValidParams(t *rapid.T, mode string, depth, batch int) *mParams {
 			h = &history{Depth: depth, Tree: ref.NewTreeH(depth, ref.MemoH2())}
 			w = genValidInsertion(t, h, batch)
 		}
+		if w == nil {
+			// the batch cannot fit the tree at all (batch > 2^depth): a correctly shaped but necessarily invalid set;
+			// callers that need validity recompute it from the reference relation or use feasible dimensions
+			ids := make([]*big.Int, batch)
+			for i := range ids {
+				ids[i] = genField(t, "xid")
+			}
+			w = forceInsertion(ref.NewTreeH(depth, ref.MemoH2()), 0, ids)
+		}
 		m.StartIndex, m.PreRoot, m.PostRoot, m.IdComms, m.MerkleProofs = low32(w.Start), w.Pre, w.Post, w.Ids, w.Paths
 		m.InputHash = ref.Mod(ref.HashInsertion(m.StartIndex, m.PreRoot, m.PostRoot, m.IdComms))
 	} else {
